@@ -461,9 +461,16 @@ def loop_backed_scenario(case):
             except BaseException as ex:  # noqa: BLE001
                 err.append(type(ex).__name__)
 
-        await loop.run_in_executor(None, do_close)
+        def do_close_inside_another_loop():
+            async def app():
+                do_close()
+            asyncio.run(app())
+
+        # the closing thread may itself be running an event loop (another one): `AsyncEngine.close()` must still run `_async_close()`
+        # on the *instance's* loop and wait for it
+        await loop.run_in_executor(None, do_close_inside_another_loop if case.get("closer_has_loop") else do_close)
         t_ret = time.monotonic()
-        what = "close() from an executor thread (instance on the application's loop)"
+        what = "close() from an executor thread%s (instance on the application's loop)" % (" that runs a loop of its own" if case.get("closer_has_loop") else "")
         if err:
             bad.append(("C17:close-call-raises:" + err[0], "%s raised %s" % (what, err[0])))
         judge_after_close(bad, what, zc, rig, n0, t_ret, events, expected, loop_goes_on=True, loop_errors=errors)
@@ -1018,7 +1025,7 @@ def gen_cases(seed):
                   "again": 2, "again_from_thread": True})
     for tb in (False, True):
         cases.append({"threads": "loop-backed-close", "n_services": rng.choice([1, 2]), "distinct_addrs": rng.random() < 0.5, "tracked_browser": tb,
-                      "close_after_ms": rng.choice([650, 750, 850]), "watch_ms": 700, "again": rng.choice([1, 2])})
+                      "close_after_ms": rng.choice([650, 750, 850]), "watch_ms": 700, "again": rng.choice([1, 2]), "closer_has_loop": tb})
     cases.append({"threads": "threaded-browser", "n_records": rng.choice([2, 3]), "callback_ms": 30, "closer": "async_close"})
     cases.append({"threads": "threaded-browser", "n_records": 2, "callback_ms": 30, "closer": "close-from-thread"})
     cases.append({"threads": "close-from-callback", "n_services": rng.choice([0, 1])})
